@@ -503,6 +503,14 @@ def drive_lock_object(ops, d):
                 if not os.path.exists(lk.fullname):
                     os.makedirs(os.path.dirname(lk.fullname), exist_ok=True)
                     open(lk.fullname, 'w').write('PID 1 on HOSTNAME elsewhere\n')
+            m_ = getattr(lk, 'monitor', None)
+            if m_ is not None and not isinstance(m_, _FakeProc):
+                # the helper is started in a way this family does not intercept: a real process - end it and leave the family out (no verdict)
+                try:
+                    lk.release()
+                except Exception:
+                    pass
+                return None
             f = None
             if os.path.exists(lk.fullname):
                 f = 'mine' if ('PID %d ' % os.getpid()) in open(lk.fullname).read() else 'other'
@@ -533,6 +541,9 @@ def lock_object_family(run, drv, quick):
             os.makedirs(d)
             real = drive_lock_object(ops, d)
             core.rm_rf(d)
+            if real is None:
+                run.count('lock_object_family_not_intercepted')
+                return
             run.case(('lock-object', tuple(ops)), nontrivial=('get' in ops and len(set(ops)) > 1))
             run.count('lock_object_sequences')
             rp = {'kind': 'lock-object', 'ops': ops}
